@@ -163,4 +163,72 @@ theorem byronAddress_dec_enc (a : ByronAddress) (r : Bytes) (hp : a.payload.leng
   obtain ⟨f, rfl⟩ : ∃ f, L = f + 3 := ⟨L - 3, by omega⟩
   simp [fieldsDef, h0, h1]
 
+/-! ## `AddressPayload` -/
+
+def AddrDistr.wf : AddrDistr → Prop
+  | .singleKey h => h.length = 28
+  | .bootstrapEra => True
+
+def AddrAttr.wf : AddrAttr → Prop
+  | .addrDistr d => d.wf
+  | .derivationPath b => b.length < 2 ^ 64
+  | .networkTag b => b.length < 2 ^ 64
+
+def AddressPayload.wf (p : AddressPayload) : Prop :=
+  p.root.length = 28 ∧ (∀ a ∈ p.attributes, a.wf) ∧ p.attributes.length < 2 ^ 64 ∧ p.addrtype < 2 ^ 32
+
+theorem hash28_enc (h r : Bytes) (hl : h.length = 28) : hash28 (encBytes h ++ r) = .ok h r := by
+  simp [hash28, bytes_enc h r (by omega), hl]
+
+theorem addrDistr_rt (d : AddrDistr) (hw : d.wf) (r : Bytes) : AddrDistr.dec (d.enc ++ r) = .ok d r := by
+  cases d with
+  | singleKey h =>
+    simp only [AddrDistr.wf] at hw
+    simp [AddrDistr.dec, AddrDistr.enc, List.append_assoc, array_enc 2 _ (by omega),
+      show Minicbor.u32 (encUInt 0 ++ (encBytes h ++ r)) = .ok 0 (encBytes h ++ r) from uintN_enc 32 0 _ (by omega) (by omega),
+      hash28_enc h r hw]
+  | bootstrapEra =>
+    simp [AddrDistr.dec, AddrDistr.enc, List.append_assoc, array_enc 1 _ (by omega),
+      show Minicbor.u32 (encUInt 1 ++ r) = .ok 1 r from uintN_enc 32 1 _ (by omega) (by omega)]
+
+theorem addrAttr_rt : RTon cAddrAttr AddrAttr.wf := by
+  intro a hw r
+  cases a with
+  | addrDistr d =>
+    simp [cAddrAttr, AddrAttr.dec, AddrAttr.enc, List.append_assoc,
+      show Minicbor.u8 (encUInt 0 ++ (d.enc ++ r)) = .ok 0 (d.enc ++ r) from uintN_enc 8 0 _ (by omega) (by omega),
+      addrDistr_rt d hw r]
+  | derivationPath b =>
+    simp only [AddrAttr.wf] at hw
+    simp [cAddrAttr, AddrAttr.dec, AddrAttr.enc, List.append_assoc,
+      show Minicbor.u8 (encUInt 1 ++ (encBytes b ++ r)) = .ok 1 (encBytes b ++ r) from uintN_enc 8 1 _ (by omega) (by omega),
+      bytes_enc b r hw]
+  | networkTag b =>
+    simp only [AddrAttr.wf] at hw
+    simp [cAddrAttr, AddrAttr.dec, AddrAttr.enc, List.append_assoc,
+      show Minicbor.u8 (encUInt 2 ++ (encBytes b ++ r)) = .ok 2 (encBytes b ++ r) from uintN_enc 8 2 _ (by omega) (by omega),
+      bytes_enc b r hw]
+
+/-- **an `AddressPayload` decodes back from its encoding** (all address types, any attribute list) -/
+theorem addressPayload_rt (p : AddressPayload) (hw : p.wf) (r : Bytes) : AddressPayload.dec (p.enc ++ r) = .ok p r := by
+  obtain ⟨h1, h2, h3, h4⟩ := hw
+  have e0 : hash28 (encBytes p.root ++ (OPP.enc cAddrAttr p.attributes ++ (encUInt p.addrtype ++ r)))
+      = .ok p.root (OPP.enc cAddrAttr p.attributes ++ (encUInt p.addrtype ++ r)) := hash28_enc _ _ h1
+  have e1 : OPP.dec cAddrAttr (OPP.enc cAddrAttr p.attributes ++ (encUInt p.addrtype ++ r))
+      = .ok p.attributes (encUInt p.addrtype ++ r) := opp_rt cAddrAttr AddrAttr.wf addrAttr_rt p.attributes ⟨h2, h3⟩ _
+  have e2 : Minicbor.u32 (encUInt p.addrtype ++ r) = .ok p.addrtype r := uintN_enc 32 _ r (by omega) h4
+  have hlen : 3 ≤ (encBytes p.root ++ (OPP.enc cAddrAttr p.attributes ++ (encUInt p.addrtype ++ r))).length := by
+    simp only [encBytes, OPP.enc, encMapHead, encUInt, encHead_eq, List.length_append, List.length_cons]
+    omega
+  simp only [AddressPayload.dec, AddressPayload.enc, structArray3, List.append_assoc, array_enc 3 _ (by omega), Res.andThen_ok]
+  generalize (encBytes p.root ++ (OPP.enc cAddrAttr p.attributes ++ (encUInt p.addrtype ++ r))).length = L at hlen
+  obtain ⟨f, rfl⟩ : ∃ f, L = f + 3 := ⟨L - 3, by omega⟩
+  simp [fields3Def, e0, e1, e2]
+
+/-- `decode(from_decoded(p)) = p` -/
+theorem decode_fromDecoded (p : AddressPayload) (hw : p.wf) : (fromDecoded p).decode = .ok p := by
+  have := addressPayload_rt p hw []
+  simp only [List.append_nil] at this
+  simp [ByronAddress.decode, fromDecoded, ofPayloadBytes, decodeTop, this]
+
 end PallasVerif.Byron
